@@ -2,9 +2,12 @@
    (a) glue: the model's convert_expr_to_pddl / transform_expression against what the implementation
        printed for the sympy tree it was given;
    (b) end to end translation validation: the proved checker of Spec/Poly.v on (input conditions, printed
-       output), plus evaluation of input and output at rational points as a second oracle. *)
+       output), plus evaluation of input and output at rational points as a second oracle;
+   (c) the elimination decision: the model of extract_eliminated_expressions / _simplify_numeric_preconditions
+       (Model/Elimination.v) against what the implementation extracted, which calls it made with which assumptions and
+       what it returned; independently of the model, every extracted assumption must follow from the input equalities. *)
 From Coq Require Import List Ascii String Bool ZArith QArith Qabs.
-From Verif Require Import Base.Result Base.Str Base.Sexp Model.Tokenizer Model.SymbolicGlue Spec.Poly Corr.Common.
+From Verif Require Import Base.Result Base.Str Base.Sexp Model.Tokenizer Model.SymbolicGlue Spec.Poly Model.Elimination Corr.Common.
 Import ListNotations.
 Open Scope string_scope.
 Open Scope list_scope.
@@ -13,7 +16,12 @@ Inductive case :=
 | CE2E (entry : string) (digits : nat) (conds assum : list string) (out : obs (list string)) (reader_ok : bool)
        (points : list (list (string * Q))) (hints : list string)
 | CGlue (digits : nat) (flag : bool) (symmap : list (string * string)) (tree : stree) (out : obs string)
-| CTrans (text : string) (given : list (string * string)) (res : string) (map_after : list (string * string)).
+| CTrans (text : string) (given : list (string * string)) (res : string) (map_after : list (string * string))
+(* one call of _simplify_numeric_preconditions: the conditions (exact constants); what extract_eliminated_expressions returned
+   for each equality, in order; the calls of simplify_equality (false) / simplify_inequality (true) with the assumptions they
+   were given and their results; what was returned *)
+| CElim (conds : list string) (extracted : list (option (string * string)))
+        (calls : list (bool * (list (string * string) * option string))) (out : obs (list string)).
 
 (* ------------------------------------------------------------------ reading *)
 Definition rd_sexp (s : string) : option sexp :=
@@ -246,6 +254,77 @@ Definition trans_ok (text : string) (given : list (string * string)) (res : stri
       end
   end.
 
+(* ------------------------------------------------------------------ the elimination decision *)
+Fixpoint expr_eqq (a b : expr) : bool :=
+  match a, b with
+  | ENum p, ENum q => Qeq_bool p q
+  | EVar v, EVar w => String.eqb v w
+  | EBin o x y, EBin o' x' y' => binop_eqb o o' && expr_eqq x x' && expr_eqq y y'
+  | _, _ => false
+  end.
+Definition cond_eqq (a b : cond) : bool :=
+  cmp_eqb (c_op a) (c_op b) && expr_eqq (c_l a) (c_l b) && expr_eqq (c_r a) (c_r b).
+
+Fixpoint list_eqb2 {A B} (f : A -> B -> bool) (a : list A) (b : list B) : bool :=
+  match a, b with
+  | [], [] => true
+  | x :: xs, y :: ys => f x y && list_eqb2 f xs ys
+  | _, _ => false
+  end.
+
+Definition rd_pair (p : string * string) : option (expr * expr) :=
+  match rd_expr (fst p), rd_expr (snd p) with Some a, Some r => Some (a, r) | _, _ => None end.
+
+Definition pair_agree (m : expr * expr) (i : string * string) : bool :=
+  match rd_pair i with Some y => expr_eqq (fst m) (fst y) && expr_eqq (snd m) (snd y) | None => false end.
+Definition opt_pair_agree (m : option (expr * expr)) (i : option (string * string)) : bool :=
+  match m, i with None, None => true | Some x, Some p => pair_agree x p | _, _ => false end.
+
+(* a = r is the equality e itself with terms moved across: (a - r) = +-(l - r') as polynomials (also when e has no solution) *)
+Definition moved_terms (e : cond) (ar : expr * expr) : bool :=
+  match pnorm (EBin OSub (fst ar) (snd ar)), pnorm (diff e) with
+  | Some p, Some q => is_zero (pclean (psub p q)) || is_zero (pclean (padd p q))
+  | _, _ => false
+  end.
+
+Record elim_view := { el_parsed : bool; el_extract : bool; el_calls : bool; el_out : bool; el_follow : bool }.
+
+Definition view_elim (conds : list string) (extracted : list (option (string * string)))
+           (calls : list (bool * (list (string * string) * option string))) (out : obs (list string)) : elim_view :=
+  match rd_conds conds with
+  | None => {| el_parsed := false; el_extract := false; el_calls := false; el_out := false; el_follow := false |}
+  | Some cs =>
+      let eqs := filter is_eq cs in
+      let asm := assumptions_of cs in
+      let table := combine cs (map (fun call => option_map unesc_s (snd (snd call))) calls) in
+      let look := fun c => match find (fun kv => cond_eqq (fst kv) c) table with Some kv => snd kv | None => None end in
+      {| el_parsed := true;
+         el_extract := list_eqb2 opt_pair_agree (map extract_eliminated eqs) extracted;
+         (* one call per condition, in order: an equality alone, an inequality with ALL the assumptions (a call that raised
+            ends the list early) *)
+         el_calls := match out with
+                     | Returned _ => Nat.eqb (List.length calls) (List.length cs)
+                     | Raised => Nat.leb (List.length calls) (List.length cs)
+                     end &&
+                     list_eqb2 (fun c call => Bool.eqb (negb (is_eq c)) (fst call) &&
+                                              list_eqb2 pair_agree (if is_eq c then [] else asm) (fst (snd call)))
+                               (firstn (List.length calls) cs) calls;
+         el_out := match out with
+                   | Returned os => list_eqb String.eqb (simplify_numeric_preconditions look (fun c _ => look c) cs)
+                                             (map unesc_s os)
+                   | Raised => true
+                   end;
+         (* the oracle, independent of the model: what was extracted follows from the equalities of the conjunction *)
+         el_follow := forallb (fun x => match x with
+                                        | None => true
+                                        | Some p => match rd_pair p with
+                                                    | Some ar => existsb (fun e => moved_terms e ar) eqs
+                                                                 || implied eqs (cond_of_assumption ar)
+                                                    | None => false
+                                                    end
+                                        end) extracted |}
+  end.
+
 Definition judge_path (c : case) : verdict * ascii :=
   match c with
   | CE2E entry d conds assum out reader_ok points hints =>
@@ -261,6 +340,10 @@ Definition judge_path (c : case) : verdict * ascii :=
           v_ok := true; v_known := false |}, "g"%char)
   | CTrans text given res after =>
       ({| v_agree := trans_ok text given res after; v_ok := true; v_known := false |}, "t"%char)
+  | CElim conds extracted calls out =>
+      let v := view_elim conds extracted calls out in
+      ({| v_agree := el_parsed v && el_extract v && el_calls v && el_out v; v_ok := el_parsed v && el_follow v;
+          v_known := false |}, "x"%char)
   end.
 
 Definition judge (c : case) : verdict := fst (judge_path c).
@@ -275,7 +358,8 @@ Definition run2 (cases : list case) : string :=
 Inductive explanation :=
 | XE2E (v : e2e_view) (ins : option (list cond))
 | XGlue (model : obs string) (readback : bool) (table_shape : bool)
-| XTrans (found : list string) (model_text : string) (model_map : result (list (string * string))).
+| XTrans (found : list string) (model_text : string) (model_map : result (list (string * string)))
+| XElim (v : elim_view) (model_extracted : list (option (expr * expr))).
 
 Definition explain (c : case) : explanation :=
   match c with
@@ -285,4 +369,7 @@ Definition explain (c : case) : explanation :=
   | CTrans text given res after =>
       XTrans (fluents_in (unesc_s text)) (transform_text (unesc_s text) (unesc_map after))
              (transform_map (unesc_map given) (fluents_in (unesc_s text)))
+  | CElim conds extracted calls out =>
+      XElim (view_elim conds extracted calls out)
+            (match rd_conds conds with Some cs => map extract_eliminated (filter is_eq cs) | None => [] end)
   end.
